@@ -11,7 +11,6 @@ import (
 	"os/exec"
 	"path"
 	"path/filepath"
-	"regexp"
 	"sort"
 	"strconv"
 	"strings"
@@ -623,289 +622,6 @@ func genDoc(r *proto.Rand) string {
 
 var escDict = []string{"\\", "\\\\", "\\(", "\\)", "\\a", "\\ ", "a\\", " ", "\xc2", "\xa0", "\xc2\\\xa0", "(", ")", "<", ">", "a", "/", "%5C", "\\\u00a0", "\\.", "\\\"", "\\/", "é", "\u00a0"}
 
-// ---------------------------------------------------------------- findings
-
-type findingDef struct {
-	id, minimal, clause string
-	class               func(shrunk, clause, detail string) bool
-}
-
-// where goldmark saw the change: inside a fenced / indented code block, an HTML block, raw
-// inline HTML — contexts the scanner tracks itself — or anywhere else ("inline")
-func catOf(detail string) string {
-	switch {
-	case strings.HasPrefix(detail, "fenced code"), strings.HasPrefix(detail, "fence info"):
-		return "fenced"
-	case strings.HasPrefix(detail, "indented code"):
-		return "indented"
-	case strings.HasPrefix(detail, "HTML block"):
-		return "html-block"
-	case strings.HasPrefix(detail, "raw HTML"):
-		return "raw-html"
-	}
-	return "inline"
-}
-
-// what goldmark sees in a (shrunk) document
-type seen struct {
-	top       []string
-	codeSpans int
-	rawHTML   int
-}
-
-func look(doc string) (v seen) {
-	d, err := parseDoc(doc)
-	if err != nil {
-		return v
-	}
-	for n := d.doc.FirstChild(); n != nil; n = n.NextSibling() {
-		v.top = append(v.top, n.Kind().String())
-	}
-	gast.Walk(d.doc, func(n gast.Node, entering bool) (gast.WalkStatus, error) {
-		if entering {
-			switch n.(type) {
-			case *gast.RawHTML:
-				v.rawHTML++
-			case *gast.CodeSpan:
-				v.codeSpans++
-			}
-		}
-		return gast.WalkContinue, nil
-	})
-	return v
-}
-
-func inlineClause(cl string) bool {
-	return cl == "only-destinations-change" || cl == "rewritten-is-absolute" || cl == "resolves-against-base"
-}
-
-// The scanner of linkdestination.go is a line-by-line heuristic. The classes below are its
-// disagreements with CommonMark seen on the unchanged tree, each defined by its cause and
-// decided on the shrunk failing document with the real code and goldmark, not by spelling:
-//
-//   - ld-line-by-line-scanner: the document has several lines, every line on its own is
-//     rewritten correctly, and the change lies outside code blocks and HTML (which the
-//     scanner does track from line to line): the meaning of the line depends on its
-//     neighbours (a definition line that continues a paragraph, a code span or a link title
-//     or a definition that runs over a line ending, a reference link defined elsewhere);
-//   - ld-html-block-not-recognised: the change lies in what goldmark reads as an HTML block
-//     while no complete open tag is pending before the rewritten span (HTML blocks are
-//     delimited by lines, the scanner's HTML state by balanced tags);
-//   - ld-inline-html-inside-brackets: the change lies in inline raw HTML that begins while a
-//     `[` is open (the scanner looks for HTML only with an empty bracket stack);
-//   - ld-nested-link-syntax: one line with link syntax inside link syntax (`[[`, or `](`
-//     more than once): brackets inside a destination or a title, links in link text;
-//   - ld-code-in-container-block: the change lies in what goldmark reads as an indented or
-//     fenced code block inside a list item or block quote (the scanner measures indentation
-//     and fences from the start of the line, not from the container's content);
-//   - ld-code-span-over-inline-html: one line on which goldmark sees a code span that begins
-//     or ends inside what the scanner skips as inline HTML;
-//   - ld-paren-title-with-paren: one line with a parenthesised title that contains an unescaped
-//     `(` (not a title in CommonMark; parseTitle accepts it);
-//   - ld-rewritten-url-unbalanced-paren: one line for which the replacer wrote a URL with
-//     unbalanced parentheses (bare in a query or fragment), which ends the destination early;
-//   - ld-escapable-set-incomplete: the rewritten URL keeps a backslash because the destination
-//     has a backslash escape of an ASCII punctuation byte that isMarkdownEscapable lacks;
-//   - ld-character-reference-in-destination: the destination has a character reference, which
-//     the replacer does not resolve;
-//   - md-unescape-nbsp also shows as a destination with U+00A0 rewritten to a URL with %20.
-var findingDefs []findingDef
-
-func init() {
-	findingDefs = []findingDef{
-		{id: "md-unescape-nbsp", minimal: "\u00a0", clause: "unescape-escape",
-			class: func(sh, cl, _ string) bool {
-				return cl == "unescape-escape" && sh == "\u00a0" || cl == "resolves-against-base" && strings.Contains(sh, "\u00a0")
-			}},
-		{id: "ld-escapable-set-incomplete", minimal: "[](\\\")", clause: "resolves-against-base",
-			class: func(sh, cl, _ string) bool {
-				return cl == "resolves-against-base" && reEscapeOfOtherPunct.MatchString(sh)
-			}},
-		{id: "ld-character-reference-in-destination", minimal: "[](a&#35;)", clause: "resolves-against-base",
-			class: func(sh, cl, _ string) bool { return cl == "resolves-against-base" && reCharRef.MatchString(sh) }},
-		{id: "ld-line-by-line-scanner", minimal: "a\n[a]:a", clause: "only-destinations-change",
-			class: func(sh, cl, detail string) bool {
-				if !inlineClause(cl) || catOf(detail) != "inline" || !strings.Contains(sh, "\n") {
-					return false
-				}
-				lines := strings.Split(sh, "\n")
-				cls, dets, err := evalDocs(lines)
-				if err != nil {
-					return false
-				}
-				for i, c := range cls {
-					// a line that fails on its own must do so for another recorded cause
-					if c != "" && classifyWith(nil, lines[i], c, dets[i]) == "" {
-						return false
-					}
-				}
-				return true
-			}},
-		{id: "ld-html-block-not-recognised", minimal: "<div [](a)", clause: "only-destinations-change",
-			class: func(sh, cl, detail string) bool {
-				// goldmark: the change lies in an HTML block. Scanner: at the first rewritten span its
-				// stack of complete open tags is empty (decided independently by openTagPending), so
-				// it takes the span for Markdown. CommonMark's HTML blocks are delimited by lines
-				// (start conditions 1-7, end at a blank line or at the line with the end condition),
-				// not by balanced tags.
-				if cl != "only-destinations-change" || catOf(detail) != "html-block" {
-					return false
-				}
-				at, ok := firstRewrite(sh)
-				return ok && !openTagPending(sh[:at])
-			}},
-		{id: "ld-inline-html-inside-brackets", minimal: "[<!--](a)-->", clause: "only-destinations-change",
-			class: func(sh, cl, detail string) bool {
-				// goldmark: the change lies in inline raw HTML (a comment, a tag). Scanner: it looks for
-				// HTML only while its bracket stack is empty; here a `[` is open before the `<`.
-				if cl != "only-destinations-change" || catOf(detail) != "raw-html" || strings.Contains(sh, "\n") {
-					return false
-				}
-				q, err := strconv.QuotedPrefix(strings.TrimPrefix(detail, "raw HTML "))
-				if err != nil {
-					return false
-				}
-				raw, _ := strconv.Unquote(q)
-				i := strings.Index(sh, raw)
-				return i > 0 && bracketDepth(sh[:i]) > 0
-			}},
-		{id: "ld-rewritten-url-unbalanced-paren", minimal: "[a]:(?)", clause: "only-destinations-change",
-			class: func(sh, cl, detail string) bool {
-				// cause: a replacement text the replacer itself wrote has unbalanced parentheses
-				// (net/url leaves `(` `)` bare in a query or fragment, markdownURLEscape escapes only
-				// backslashes), which ends the bare destination early
-				if !inlineClause(cl) || catOf(detail) != "inline" || strings.Contains(sh, "\n") {
-					return false
-				}
-				rs, err := runReal([]tcase{{Op: "replace", Src: hexs(sh), Base: baseURL, Dir: dirName}})
-				if err != nil {
-					return false
-				}
-				for _, rp := range rs[0].Repls {
-					depth := 0
-					for _, ch := range unhex(rp[2]) {
-						if ch == '(' {
-							depth++
-						} else if ch == ')' {
-							if depth--; depth < 0 {
-								return true
-							}
-						}
-					}
-					if depth != 0 {
-						return true
-					}
-				}
-				return false
-			}},
-		{id: "ld-nested-link-syntax", minimal: "[[](<>\"](\")", clause: "only-destinations-change",
-			class: func(sh, cl, detail string) bool {
-				return inlineClause(cl) && catOf(detail) == "inline" && !strings.Contains(sh, "\n") &&
-					(strings.Count(sh, "](") >= 2 || strings.Contains(sh, "[["))
-			}},
-		{id: "ld-paren-title-with-paren", minimal: "[a]:a (()", clause: "only-destinations-change",
-			class: func(sh, cl, detail string) bool {
-				return inlineClause(cl) && catOf(detail) == "inline" && !strings.Contains(sh, "\n") && reParenInParenTitle.MatchString(sh)
-			}},
-		{id: "ld-code-in-container-block", minimal: "-     [](a)", clause: "only-destinations-change",
-			class: func(sh, cl, detail string) bool {
-				// goldmark: the change lies in a code block or in a reference definition inside a
-				// list item or block quote. Scanner: it knows no container blocks — indentation,
-				// fences and definitions are looked for at the start of the line only.
-				cat := catOf(detail)
-				top := look(sh).top
-				return cl == "only-destinations-change" && len(top) > 0 && (top[0] == "List" || top[0] == "Blockquote") &&
-					(cat == "indented" || cat == "fenced" || strings.HasPrefix(detail, "reference definition"))
-			}},
-		{id: "ld-code-span-over-inline-html", minimal: "<span>`</span>[](`)", clause: "only-destinations-change",
-			class: func(sh, cl, detail string) bool {
-				v := look(sh)
-				return inlineClause(cl) && catOf(detail) == "inline" && !strings.Contains(sh, "\n") &&
-					v.codeSpans > 0 && strings.Contains(sh, "<")
-			}},
-	}
-}
-
-// a backslash before one of the ASCII punctuation bytes that isMarkdownEscapable does not list
-var reEscapeOfOtherPunct = regexp.MustCompile("\\\\[\"$%',/:;?@^]")
-var reParenInParenTitle = regexp.MustCompile(`[ \t]\((?:[^()\\]|\\.)*\(`)
-
-// firstRewrite asks the real scanner where its first replacement in doc starts.
-func firstRewrite(doc string) (int, bool) {
-	rs, err := runReal([]tcase{{Op: "replace", Src: hexs(doc), Base: baseURL, Dir: dirName}})
-	if err != nil || len(rs[0].Repls) == 0 {
-		return 0, false
-	}
-	at, err := strconv.Atoi(rs[0].Repls[0][0])
-	return at, err == nil && at <= len(doc)
-}
-
-var reAnyTag = regexp.MustCompile("</?[A-Za-z][A-Za-z0-9-]*(\\s+[A-Za-z_:][A-Za-z0-9_.:-]*(\\s*=\\s*([^\\s\"'=<>`]+|'[^']*'|\"[^\"]*\"))?)*\\s*/?>")
-var voidTags = map[string]bool{"area": true, "base": true, "br": true, "col": true, "embed": true, "hr": true, "img": true, "input": true, "link": true, "meta": true, "param": true, "source": true, "track": true, "wbr": true}
-
-// openTagPending: is a complete, non-void, not self-closed open tag still unclosed at the end
-// of prefix? (what a tag-stack scanner would call "inside HTML")
-func openTagPending(prefix string) bool {
-	var stack []string
-	for _, t := range reAnyTag.FindAllString(prefix, -1) {
-		name := strings.ToLower(strings.TrimLeft(t, "</"))
-		if i := strings.IndexAny(name, " \t\n/>"); i >= 0 {
-			name = name[:i]
-		}
-		switch {
-		case strings.HasPrefix(t, "</"):
-			for i := len(stack) - 1; i >= 0; i-- {
-				if stack[i] == name {
-					stack = stack[:i]
-					break
-				}
-			}
-		case strings.HasSuffix(t, "/>") || voidTags[name]:
-		default:
-			stack = append(stack, name)
-		}
-	}
-	return len(stack) > 0
-}
-
-// bracketDepth: unescaped `[` still open at the end of prefix
-func bracketDepth(prefix string) int {
-	d := 0
-	for i := 0; i < len(prefix); i++ {
-		switch prefix[i] {
-		case '\\':
-			i++
-		case '[':
-			d++
-		case ']':
-			if d > 0 {
-				d--
-			}
-		}
-	}
-	return d
-}
-
-var reCharRef = regexp.MustCompile(`&(#[0-9]+|#[xX][0-9a-fA-F]+|[A-Za-z][A-Za-z0-9]*);`)
-
-func classify(c *hx.Ctx, shrunk, clause, detail string) string {
-	return classifyWith(c, shrunk, clause, detail)
-}
-
-// classifyWith: with c == nil the id of the matching class whether or not it is listed
-func classifyWith(c *hx.Ctx, shrunk, clause, detail string) string {
-	for i := range findingDefs {
-		f := &findingDefs[i]
-		if f.class(shrunk, clause, detail) {
-			if c == nil {
-				return f.id
-			}
-			return c.Known(f.id)
-		}
-	}
-	return ""
-}
-
 // every failing document is shrunk and classified (about 50 ms each through the running test
 // process); VERIF_C29_SHRINK can lower the number per clause for experiments
 func shrinkLimit() int {
@@ -920,6 +636,9 @@ func shrinkLimit() int {
 func run(c *hx.Ctx) error {
 	res := c.Res
 	defer stopSession()
+	if p := os.Getenv("VERIF_C29_EXPLAIN"); p != "" { // development aid: one Go-quoted document per line
+		return explainFile(p)
+	}
 	res.Rule = "cases for the real code (run inside cmd/scriggo's tag-guarded test): (1) generated Markdown documents of 1-4 blocks from the construct list of the property (inline links and images with bare / angle / empty destinations, titles in the three quote forms, reference definitions and uses, code spans, fenced and indented code, HTML blocks, raw-text elements, comments, inline HTML, lists, block quotes, headings, escaped brackets and parentheses, nested brackets) through linkDestinationReplacer.replace with base https://example.com/base, dir docs; (2) random sources with random replacement lists (valid, overlapping, out of range) through applyReplacements; (3) a backslash / U+00A0 dictionary, its pairs and random bytes through markdownURLEscape and markdownUnescape; (4) generated lines x positions through parseDestination, parseTitle, findLabelEnd; a case is non-trivial when it has a link construct / a replacement / a backslash or C2 byte; distinct by (op, input)"
 
 	var cases []tcase
@@ -1072,13 +791,19 @@ func run(c *hx.Ctx) error {
 			}
 			continue
 		}
-		cls, dets, err := evalDocs([]string{f.minimal})
+		// the recorded witness must still fail and fall into its own class
+		cls, dets, rs, err := evalDocsR([]string{f.minimal})
 		if err != nil {
 			return err
 		}
-		if cls[0] != "" && f.class(f.minimal, cls[0], dets[0]) {
+		if cls[0] != "" && explain(f.minimal, cls[0], dets[0], rs[0]).id == f.id {
 			report("property", cls[0], "C29 replace "+proto.Hex([]byte(f.minimal)), fmt.Sprintf("document %q", f.minimal), dets[0], "", f.id)
 		}
+	}
+
+	// the finding classes must be narrow: what a class predicts must come true on the real code
+	if err := precisionSelfTest(c, report); err != nil {
+		return err
 	}
 
 	// ---- model answers
@@ -1147,6 +872,7 @@ func run(c *hx.Ctx) error {
 	// documents
 	type minimalRaw struct {
 		doc, detail string
+		res         tresult
 		ok          bool
 	}
 	minimalByRaw := map[string]minimalRaw{}
@@ -1178,13 +904,13 @@ func run(c *hx.Ctx) error {
 				mr, ok := minimalByRaw[raw]
 				if !ok {
 					doc := "[](" + raw + ")"
-					if cls, dets, err := evalDocs([]string{doc}); err == nil && cls[0] == cl {
-						mr = minimalRaw{doc, dets[0], true}
+					if cls, dets, rs, err := evalDocsR([]string{doc}); err == nil && cls[0] == cl {
+						mr = minimalRaw{doc, dets[0], rs[0], true}
 					}
 					minimalByRaw[raw] = mr
 				}
 				if mr.ok {
-					report("property", cl, "C29 replace "+proto.Hex([]byte(mr.doc)), fmt.Sprintf("document %q (found with %q)", mr.doc, d), mr.detail, "", classify(c, mr.doc, cl, mr.detail))
+					report("property", cl, "C29 replace "+proto.Hex([]byte(mr.doc)), fmt.Sprintf("document %q (found with %q)", mr.doc, d), mr.detail, "", classify(c, mr.doc, cl, mr.detail, mr.res))
 					continue
 				}
 			}
@@ -1195,10 +921,20 @@ func run(c *hx.Ctx) error {
 		if sdetail == "" {
 			sdetail = detail
 		}
-		if os.Getenv("VERIF_C29_DEBUG") != "" {
-			fmt.Fprintf(os.Stderr, "SHRUNK %s %q :: %s\n", cl, shrunk, sdetail)
+		sres := r
+		if shrunk != d {
+			_, _, rs, err := evalDocsR([]string{shrunk})
+			if err != nil {
+				return err
+			}
+			sres = rs[0]
 		}
-		report("property", cl, "C29 replace "+proto.Hex([]byte(shrunk)), fmt.Sprintf("document %q (found with %q)", shrunk, d), sdetail, "", classify(c, shrunk, cl, sdetail))
+		vd := explain(shrunk, cl, sdetail, sres)
+		res.Hist("failing-documents-by-class/" + map[bool]string{true: vd.id, false: "none"}[vd.id != ""])
+		if os.Getenv("VERIF_C29_DEBUG") != "" {
+			fmt.Fprintf(os.Stderr, "SHRUNK %s [%s] %s %q :: %s\n", cl, vd.id, vd.effect, shrunk, sdetail)
+		}
+		report("property", cl, "C29 replace "+proto.Hex([]byte(shrunk)), fmt.Sprintf("document %q (found with %q; effect %s)", shrunk, d, vd.effect), sdetail, "", classify(c, shrunk, cl, sdetail, sres))
 	}
 	// spec validation of the hypotheses of rewritten_is_absolute / idempotent_destination
 	// (UrlLaws in Lemmas/LinkDestUrl.lean) against net/url: (1) a parsed URL given the base scheme and
@@ -1270,7 +1006,7 @@ func run(c *hx.Ctx) error {
 			// shrink: needs the real code; evaluate candidates in one batch per round
 			shrunk := shrinkRoundTrip(s)
 			report("property", "unescape-escape", "C29 escape "+proto.Hex([]byte(shrunk)), fmt.Sprintf("%q (found with %q)", shrunk, s),
-				fmt.Sprintf("markdownUnescape(markdownURLEscape(%q)) = %q", s, back), "", classify(c, shrunk, "unescape-escape", ""))
+				fmt.Sprintf("markdownUnescape(markdownURLEscape(%q)) = %q", s, back), "", classify(c, shrunk, "unescape-escape", "", tresult{}))
 		}
 	}
 	// scanners
@@ -1310,19 +1046,25 @@ func run(c *hx.Ctx) error {
 
 // evalDocs runs the real replacer on every candidate and returns the failing clause of each.
 func evalDocs(cands []string) ([]string, []string, error) {
+	cls, dets, _, err := evalDocsR(cands)
+	return cls, dets, err
+}
+
+// evalDocsR: evalDocs with the real code's results (the collected replacements)
+func evalDocsR(cands []string) ([]string, []string, []tresult, error) {
 	var cs []tcase
 	for _, d := range cands {
 		cs = append(cs, tcase{Op: "replace", Src: hexs(d), Base: baseURL, Dir: dirName})
 	}
 	rs, err := runReal(cs)
 	if err != nil {
-		return nil, nil, err
+		return nil, nil, nil, err
 	}
 	cls, dets := make([]string, len(cands)), make([]string, len(cands))
 	for i, d := range cands {
 		cls[i], dets[i] = replaceOracle(d, rs[i])
 	}
-	return cls, dets, nil
+	return cls, dets, rs, nil
 }
 
 // shrinkDoc: greedy removal on the real code. First halving chunk sizes (every round evaluates
@@ -1434,4 +1176,44 @@ func shrinkRoundTrip(s string) string {
 			return cur
 		}
 	}
+}
+
+// explainFile prints, for every document of the file, the oracle's verdict on the real code,
+// the effect and the class (development aid, VERIF_C29_EXPLAIN=<file>).
+func explainFile(p string) error {
+	data, err := os.ReadFile(p)
+	if err != nil {
+		return err
+	}
+	var docs []string
+	for _, l := range strings.Split(string(data), "\n") {
+		if l = strings.TrimSpace(l); l != "" {
+			d, err := strconv.Unquote(l)
+			if err != nil {
+				return fmt.Errorf("%s: %v", l, err)
+			}
+			docs = append(docs, d)
+		}
+	}
+	cls, dets, rs, err := evalDocsR(docs)
+	if err != nil {
+		return err
+	}
+	for i, d := range docs {
+		v := explain(d, cls[i], dets[i], rs[i])
+		var pred []string
+		in := analyse(d)
+		for _, f := range findingDefs {
+			if sp := f.predict(in); len(sp) > 0 {
+				pred = append(pred, fmt.Sprintf("%s%v", f.id, sp))
+			}
+		}
+		if os.Getenv("VERIF_C29_CANDS") != "" {
+			for _, c := range in.cands {
+				fmt.Printf("   cand %v raw=%q def=%v open=%v lb=%d alone=%v whole=%v at=%+v defInContainer=%v\n", c.span, c.raw, c.def, c.open, c.lb, c.alone, c.whole, c.at, defInContainer(c.line))
+			}
+		}
+		fmt.Printf("%-40q clause=%q class=[%s] effect=%s culprit=%v predicted=%v repls=%v\n", d, cls[i], v.id, v.effect, v.culprit, pred, appliedSpans(rs[i]))
+	}
+	return nil
 }
